@@ -40,3 +40,12 @@ package keeper
 //@   ensures [C01] #c01-count: result == nil && vf0 ==> k.vault.GetLengthOfVault(ctx) == old(k.vault.GetLengthOfVault(ctx)) - ite(gone, 1, 0)
 //@   ensures [C09] #c09-one-locked-vault: result == nil && vf0 && gone ==> k.GetLockedVaultID(ctx) == old(k.GetLockedVaultID(ctx)) + 1
 //@   ensures [C01] #c01-frame-vaults: forall j :: j != vaultID ==> k.vault.GetVault(ctx, j) == old(k.vault.GetVault(ctx, j))
+
+// The borrow sweep of the begin-blocker (C15, C09): it never panics, its only unprotected write is its own offset record
+// (every per-borrow step is wrapped), and it keeps its offset under its own counter id without touching other sweeps' offsets.
+//@ func (k Keeper) LiquidateBorrows
+//@   property C15, C09
+//@   modifies liquidationsV2
+//@   requires #batch-bound: k.GetParams(ctx).LiquidationBatchSize <= pow2(62) && len(k.lend.GetBorrows(ctx).0) <= pow2(62)
+//@   nopanic
+//@   ensures [C09] #c09-own-offset: result == nil && k.lend.GetBorrows(ctx).1 ==> k.GetLiquidationOffsetHolder(ctx, "vault-liquidations", offsetCounterId).1 && k.GetLiquidationOffsetHolder(ctx, "vault-liquidations", offsetCounterId).0.AppId == offsetCounterId
